@@ -291,6 +291,7 @@ class Ctx:
         self.streams = {}              # stream -> dict(evaluations, distinct, dist(Counter), samples)
         self.disagreements = []        # dict(stream, input, model, impl)
         self.failures = []             # dict(signature, input, observed, expected, oracle, ...)
+        self.fail_counts = {}          # signature -> number of failing inputs seen (only the first 20 are kept)
         self.notes = []
         self.kernel_suspects = []      # inputs of kernel-level streams (srctie) at which model / source image and code disagreed
         self.advisory = []             # disagreements of advisory streams (translator validation): never a violation
@@ -356,7 +357,9 @@ class Ctx:
 
     def fail(self, signature, input, observed, expected, oracle=None, what=None):
         """a concrete input on which the *property* fails on the real code"""
-        if len(self.failures) < 500:
+        # at most 20 inputs are kept per signature, so that a frequent (known) class cannot crowd out a new one
+        n = self.fail_counts[signature] = self.fail_counts.get(signature, 0) + 1
+        if n <= 20 and len(self.failures) < 2000:
             self.failures.append({'signature': signature, 'input': input, 'observed': observed, 'expected': expected,
                                   'oracle': oracle, 'what': what})
 
